@@ -89,6 +89,10 @@ type Env struct {
 	FailedTxid          int
 	ReadersAtFailure    int
 
+	closedTx     *bolt.Tx     // the most recently ended transaction (for ErrTxClosed probes)
+	closedBucket *bolt.Bucket // a bucket handle obtained from it before it ended
+	closedWasRW  bool
+
 	// WriteTxClosed is true once a write transaction has ended since the last Open (Stats are refreshed then).
 	WriteTxClosed bool
 }
@@ -488,6 +492,8 @@ func (e *Env) apply(op Op) *Violation {
 			return Violf("close: %v", err)
 		}
 		return nil
+	case OpClosedTxUse:
+		return e.closedTxProbe()
 	case OpArmFault:
 		e.FailAt = e.EventN + int(op.U)
 		e.Failed = nil
@@ -525,6 +531,7 @@ func (e *Env) apply(op Op) *Violation {
 		}
 		rw := e.RW
 		e.RW = nil
+		e.captureClosed(rw.tx, rw.m, true)
 		e.Mark("commit-start", rw.id)
 		e.MetaWrittenInCommit = false
 		e.inCommit = true
@@ -564,6 +571,7 @@ func (e *Env) apply(op Op) *Violation {
 		}
 		rw := e.RW
 		e.RW = nil
+		e.captureClosed(rw.tx, rw.m, true)
 		if err := rw.tx.Rollback(); err != nil {
 			return Violf("rollback: %v", err)
 		}
@@ -612,6 +620,7 @@ func (e *Env) apply(op Op) *Violation {
 			return nil
 		}
 		v := e.compareRO(r, "at close")
+		e.captureClosed(r.tx, r.m, false)
 		delete(e.RO, op.Tx)
 		if err := r.tx.Rollback(); err != nil && v == nil {
 			v = Violf("reader rollback: %v", err)
@@ -739,5 +748,93 @@ func (e *Env) CompareReaders(when string) *Violation {
 			return v
 		}
 	}
+	return nil
+}
+
+func (e *Env) captureClosed(tx *bolt.Tx, m *model.Bucket, rw bool) {
+	e.closedTx, e.closedBucket, e.closedWasRW = tx, nil, rw
+	if names := m.SubNames(); len(names) > 0 {
+		e.closedBucket = tx.Bucket([]byte(names[0]))
+	}
+}
+
+// closedTxProbe calls the entry points that are documented to return ErrTxClosed on an ended transaction.
+func (e *Env) closedTxProbe() *Violation {
+	tx := e.closedTx
+	if tx == nil {
+		return nil
+	}
+	want := func(what string, err error) *Violation {
+		if !errors.Is(err, berrors.ErrTxClosed) {
+			return Violf("%s on an ended transaction returned %v, want ErrTxClosed", what, err)
+		}
+		return nil
+	}
+	k := []byte("k")
+	if _, err := tx.CreateBucket(k); true {
+		if v := want("Tx.CreateBucket", err); v != nil {
+			return v
+		}
+	}
+	if _, err := tx.CreateBucketIfNotExists(k); true {
+		if v := want("Tx.CreateBucketIfNotExists", err); v != nil {
+			return v
+		}
+	}
+	if v := want("Tx.DeleteBucket", tx.DeleteBucket(k)); v != nil {
+		return v
+	}
+	if v := want("Tx.Commit", tx.Commit()); v != nil {
+		return v
+	}
+	if v := want("Tx.Rollback", tx.Rollback()); v != nil {
+		return v
+	}
+	if _, err := tx.Page(2); true {
+		if v := want("Tx.Page", err); v != nil {
+			return v
+		}
+	}
+	if tx.DB() != nil {
+		return Violf("Tx.DB() is non-nil on an ended transaction")
+	}
+	b := e.closedBucket
+	if b == nil {
+		return nil
+	}
+	if v := want("Bucket.Put", b.Put(k, k)); v != nil {
+		return v
+	}
+	if v := want("Bucket.Delete", b.Delete(k)); v != nil {
+		return v
+	}
+	if v := want("Bucket.DeleteBucket", b.DeleteBucket(k)); v != nil {
+		return v
+	}
+	if _, err := b.CreateBucket(k); true {
+		if v := want("Bucket.CreateBucket", err); v != nil {
+			return v
+		}
+	}
+	if _, err := b.CreateBucketIfNotExists(k); true {
+		if v := want("Bucket.CreateBucketIfNotExists", err); v != nil {
+			return v
+		}
+	}
+	if v := want("Bucket.SetSequence", b.SetSequence(1)); v != nil {
+		return v
+	}
+	if _, err := b.NextSequence(); true {
+		if v := want("Bucket.NextSequence", err); v != nil {
+			return v
+		}
+	}
+	if v := want("Bucket.ForEach", b.ForEach(func(k, v []byte) error { return nil })); v != nil {
+		return v
+	}
+	if v := want("Bucket.ForEachBucket", b.ForEachBucket(func(k []byte) error { return nil })); v != nil {
+		return v
+	}
+	e.Label("closed-tx-probe")
 	return nil
 }
